@@ -31,6 +31,7 @@ pub fn families_for(prop: &str) -> Vec<Family> {
         "C02" => vec![
             Family { name: "c02_perm", cfg: c02_cfg, run: c02_perm_run },
             Family { name: "c02_rand", cfg: c02_cfg, run: c02_rand_run },
+            Family { name: "c02_close", cfg: c02_cfg, run: c02_close_run },
         ],
         "C12" => vec![Family { name: "c12", cfg: c12_cfg, run: c12_run }],
         "C09" => vec![Family { name: "c09", cfg: c09_cfg, run: c09_run }],
@@ -296,7 +297,20 @@ fn c03_rand_run(case: &mut Case, rng: &mut Rng) {
             let a = rng.below(hosts as u64) as usize;
             let b = (a + 1 + rng.below(hosts as u64 - 1) as usize) % hosts;
             let call = *rng.pick(&["partition", "partition1", "repair", "repair1"]);
-            if rng.chance(1, 3) {
+            if !case.cfg.desc && rng.chance(1, 4) {
+                // host sets (regexes over node names), possibly overlapping, possibly everything
+                let pickset = |rng: &mut Rng| -> String {
+                    let mut v: Vec<String> = (0..hosts).filter(|_| rng.chance(2, 3)).map(|h| format!("h{h}")).collect();
+                    if v.is_empty() {
+                        v.push(format!("h{}", rng.below(hosts as u64)));
+                    }
+                    v.join(",")
+                };
+                let (sa, sb) = (pickset(rng), pickset(rng));
+                case.ctl("links");
+                case.ctl(&format!("{call}_set {sa} {sb}"));
+                tr.burst(case, rng, 1);
+            } else if rng.chance(1, 3) {
                 // from host code, in the middle of that host's sends
                 let h = rng.below(hosts as u64) as usize;
                 case.ctl(&format!("q h{h} net_{call} h{a} h{b}"));
@@ -437,7 +451,32 @@ fn c08_rand_run(case: &mut Case, rng: &mut Rng) {
                 }
             }
         }
-        if rng.chance(1, 3) {
+        if !case.cfg.desc && rng.chance(1, 8) {
+            // host sets (regexes over node names), possibly overlapping: every pair of distinct hosts
+            let mut pick = |rng: &mut Rng| -> Vec<usize> {
+                let mut v: Vec<usize> = (0..hosts).filter(|_| rng.chance(2, 3)).collect();
+                if v.is_empty() {
+                    v.push(rng.below(hosts as u64) as usize);
+                }
+                v
+            };
+            let (sa, sb) = (pick(rng), pick(rng));
+            let txt = |v: &Vec<usize>| v.iter().map(|h| format!("h{h}")).collect::<Vec<_>>().join(",");
+            let hold = rng.chance(1, 2);
+            case.ctl("links");
+            case.ctl(&format!("{}_set {} {}", if hold { "hold" } else { "release" }, txt(&sa), txt(&sb)));
+            for &a in &sa {
+                for &b in &sb {
+                    if a != b {
+                        let key = (a.min(b), a.max(b));
+                        held.retain(|k| *k != key);
+                        if hold {
+                            held.push(key);
+                        }
+                    }
+                }
+            }
+        } else if rng.chance(1, 3) {
             let a = rng.below(hosts as u64) as usize;
             let b = (a + 1 + rng.below(hosts as u64 - 1) as usize) % hosts;
             let key = (a.min(b), a.max(b));
@@ -670,8 +709,23 @@ fn c15_dns_run(case: &mut Case, rng: &mut Rng) {
     let pool = rng.range(5, 300) as usize;
     let mut known: Vec<String> = Vec::new(); // ipnums seen
     let ops = rng.range(10, 400);
+    // many names at once (more than fit into one byte / one 16-bit group of the address)
+    let bulk = if rng.chance(1, 3) { rng.range(200, 1200) as usize } else { 0 };
+    if bulk > 0 {
+        case.ctl(&format!("dnsbulk bulk- {bulk}"));
+    }
     for _ in 0..ops {
-        match rng.below(10) {
+        match rng.below(if bulk > 0 { 12 } else { 10 }) {
+            10 | 11 => {
+                // every name of the bulk keeps its own address, and the address leads back to it
+                let k = rng.below(bulk as u64);
+                case.ctl(&format!("dns bulk-{k}"));
+                if let Some(last) = last_obs() {
+                    if let Some(ip) = last.strip_prefix("OBS ok ") {
+                        case.ctl(&format!("rdns {ip}"));
+                    }
+                }
+            }
             0..=5 => {
                 let k = rng.below(pool as u64);
                 let prefix = *rng.pick(&["a", "b", "ab", "srv-"]);
@@ -908,6 +962,94 @@ fn c02_rand_run(case: &mut Case, rng: &mut Rng) {
     for _ in 0..tail {
         case.ctl(&format!("q h{s} tcp_read s{ss} 64"));
         case.ctl(&format!("q h{c} tcp_read s{cs} 64"));
+        case.ctl("step");
+    }
+    case.ctl("mark drained");
+}
+
+/// Request / response with every way of ending the connection: the client writes a request and
+/// half-closes; the server reads all of it, part of it, or none of it (never up to end-of-file,
+/// or up to it), answers, and goes away by drop / split drops / shutdown-then-drop, before or
+/// after the client's FIN has arrived.  The client then reads to the end: after a graceful close
+/// it must see the whole answer and end-of-file, never a reset.
+fn c02_close_run(case: &mut Case, rng: &mut Rng) {
+    let (server, via) = (1usize, "h1".to_string());
+    if !establish(case, server, &via) {
+        return;
+    }
+    case.ctl("mark established");
+    let lat = case.cfg.maxlat_ms / case.cfg.tick_ms + 2;
+    let cap = case.cfg.tcpcap.max(1);
+    let mut src_c = ByteSrc { tag: 0x30, pos: 0 };
+    let mut src_s = ByteSrc { tag: 0xE0, pos: 0 };
+    // request: k segments (within the channel capacity so that none is refused), then FIN
+    let k = rng.range(0, 3.min(cap as u64)) as usize;
+    let mut req = 0usize;
+    for _ in 0..k {
+        let n = rng.range(1, 4) as usize;
+        case.ctl(&format!("q h0 tcp_write s2 {}", src_c.take(n)));
+        req += n;
+    }
+    let client_closes_first = rng.chance(3, 4);
+    if client_closes_first {
+        case.ctl("q h0 tcp_shutdown s2");
+    }
+    case.ctl("step");
+    // does the server wait for the request (and the FIN) to arrive?
+    let wait = match case.idx % 3 { 0 => lat + 1, 1 => rng.below(lat + 1), _ => 0 };
+    for _ in 0..wait {
+        case.ctl("step");
+    }
+    // how much the server reads: everything but not the end-of-file, everything and the end-of-file, or less
+    let mode = (case.idx / 3) % 4;
+    let mut want = match mode { 0 | 1 => req, 2 => req / 2, _ => 0 };
+    let mut tries = 0;
+    while want > 0 && tries < 12 {
+        let n = want.min(rng.range(1, 4) as usize);
+        case.ctl(&format!("q h1 tcp_read s2 {n}"));
+        case.ctl("step");
+        let o = last_obs_of("OP h1 tcp_read s2").unwrap_or_default();
+        if let Some(hexs) = o.strip_prefix("ok ") {
+            if hexs != "-" {
+                want -= (hexs.len() / 2).min(want);
+            }
+        }
+        tries += 1;
+    }
+    if mode == 1 {
+        case.ctl("q h1 tcp_read s2 4"); // reads the end-of-file if the FIN is there
+        case.ctl("step");
+    }
+    // the answer
+    let segs = rng.range(0, 3.min(cap as u64)) as usize;
+    for _ in 0..segs {
+        let n = rng.range(1, 4) as usize;
+        case.ctl(&format!("q h1 tcp_write s2 {}", src_s.take(n)));
+    }
+    // the server goes away
+    match rng.below(5) {
+        0 | 1 => case.ctl("q h1 drop s2"),
+        2 => {
+            case.ctl("q h1 tcp_dropr s2");
+            case.ctl("q h1 tcp_dropw s2");
+        }
+        3 => {
+            case.ctl("q h1 tcp_dropw s2");
+            case.ctl("step");
+            case.ctl("q h1 tcp_dropr s2");
+        }
+        _ => {
+            case.ctl("q h1 tcp_shutdown s2");
+            case.ctl("step");
+            case.ctl("q h1 drop s2");
+        }
+    }
+    case.ctl("step");
+    if !client_closes_first {
+        case.ctl("q h0 tcp_shutdown s2");
+    }
+    for _ in 0..(lat + 2 * segs as u64 + 6) {
+        case.ctl(&format!("q h0 tcp_read s2 {}", *rng.pick(&[1u64, 3, 64])));
         case.ctl("step");
     }
     case.ctl("mark drained");
@@ -1417,6 +1559,19 @@ fn c04_run(case: &mut Case, rng: &mut Rng) {
             _ => {
                 let id = 500 + k as u32;
                 case.ctl(&format!("q h1 udp_send s0 h0:9000 {}", hex(&[(id >> 8) as u8, id as u8])));
+                // the group the victim belonged to still has h1 as a member: datagrams to the group
+                // (from the member itself, and from an outsider) must keep reaching it
+                let id = 600 + k as u32;
+                case.ctl(&format!("q h1 udp_send s0 mc0:9000 {}", hex(&[(id >> 8) as u8, id as u8])));
+                if hosts > 2 {
+                    let id = 700 + k as u32;
+                    if k == 0 {
+                        case.ctl("q h2 udp_bind s0 any:9000");
+                    }
+                    case.ctl(&format!("q h2 udp_send s0 mc0:9000 {}", hex(&[(id >> 8) as u8, id as u8])));
+                }
+                case.ctl("q h1 udp_tryrecv s0 4");
+                case.ctl("q h1 udp_tryrecv s0 4");
             }
         }
         if workload == 0 && hosts > 2 {
@@ -1432,6 +1587,9 @@ fn c04_run(case: &mut Case, rng: &mut Rng) {
         case.ctl("crash h0"); // crashing a crashed host is a no-op
     }
     case.ctl("bounce h0");
+    if workload == 3 {
+        case.ctl(&format!("q h1 udp_send s0 mc0:9000 {}", hex(&[0x03, 0x20])));
+    }
     // the new incarnation binds the same ports again
     case.ctl("q h0 udp_bind s0 any:9000");
     case.ctl("q h0 tcp_bind s1 any:80");
@@ -1443,7 +1601,11 @@ fn c04_run(case: &mut Case, rng: &mut Rng) {
         match workload {
             0 => case.ctl("q h1 tcp_cpoll s2"),
             1 | 2 => case.ctl("q h1 tcp_read s2 8"),
-            _ => case.ctl("q h1 udp_tryrecv s0 4"),
+            _ => {
+                case.ctl("q h1 udp_tryrecv s0 4");
+                case.ctl("q h1 udp_tryrecv s0 4");
+                case.ctl("q h1 udp_tryrecv s0 4");
+            }
         }
         case.ctl("q h1 tcp_cpoll s5");
         case.ctl("step");
@@ -1506,7 +1668,12 @@ fn c01_fs_run(case: &mut Case, rng: &mut Rng) {
                         case.ctl(&format!("q h{h} fs_syncdir {}", *rng.pick(&["d", "", "e"])));
                         case.ctl(&format!("q h{h} select4"));
                     }
-                    7 => case.ctl(&format!("q h{h} fs_cat d/{}", *rng.pick(&names))),
+                    7 => {
+                        let n = *rng.pick(&names);
+                        case.ctl(&format!("q h{h} fs_cat d/{n}"));
+                        case.ctl(&format!("q h{h} fs_stat d/{n}"));
+                        case.ctl(&format!("q h{h} fs_stat d"));
+                    }
                     8 => {
                         case.ctl(&format!("q h{h} uring_submit {}", rng.range(1, 8)));
                         if rng.chance(1, 2) {
